@@ -914,7 +914,8 @@ LEVEL = {
             "add_question/add_rrset/add_opt with the padding arithmetic, write_header) and Message.to_wire (clamp to [512, 65535], "
             "OPT/TSIG reserves, prefer_truncation): never_exceeds — a rendering is never longer than the clamped limit, for all messages, "
             "limits and both modes; rollback_exact — an add that overflows leaves buffer, compression table and counts exactly as before "
-            "(so no pointer into removed bytes), in every reachable state; truncation_prefix — with prefer_truncation the result is byte for "
+            "(so no pointer into removed bytes), in every reachable state; rollback_exact_any — the same for any exception raised while an item is "
+            "being written, whatever the unfinished write had appended (repair 2e4231d); truncation_prefix — with prefer_truncation the result is byte for "
             "byte the untruncated rendering of the message cut to its first k record sets (whole sets, section order, same OPT/TSIG) with TC "
             "added iff the first dropped set lies before ADDITIONAL; truncation_counts_opt_tsig — truncation never drops the OPT or TSIG record "
             "and the header counts of the truncated result are exactly the records present (ARCOUNT counts OPT and TSIG); result_parses — "
@@ -930,8 +931,7 @@ LEVEL = {
             "block, ≤ max_size, from_wire with the keyring verifies the TSIG, records/OPT/PADDING present) and step-by-step Renderer traces.",
     "note": "Trusted: Lean kernel + propext/Classical.choice/Quot.sound; the statements in lean/Props/C08.lean; the correspondence "
             "harness and its generators; harness/extract_C03.py. The TSIG MAC is abstract and fixed-size. Tie-only: result_parses for "
-            "messages of opcode UPDATE (C03.update_forms is stated for untruncated renderings); argument checks (negative reserve / pad), "
-            "an exception other than TooBig in the middle of an add (known finding: partial record left behind) — direct oracle.",
+            "messages of opcode UPDATE (C03.update_forms is stated for untruncated renderings); argument checks (negative reserve / pad) — direct oracle.",
     "technique": "Lean 4 proof (invariant over the rendering fold; exact-rollback lemma; prefix characterisation) + "
                  "model-vs-implementation correspondence at every limit",
     "design_ref": "DESIGN.md §7 C08",
